@@ -1,0 +1,28 @@
+//! Facade for `ingress::Register` (C14). `crate::ingress` is a public module,
+//! but `Register::{new, register, update_info}` are `pub(crate)`; the wrappers
+//! below call exactly those functions and nothing else.
+pub use crate::ingress::{IngressId, IngressInfo, Register};
+
+/// `Register::new()`
+pub fn new_register() -> Register {
+    Register::new()
+}
+
+/// A register whose counter starts at `serial` instead of 1.
+pub fn new_register_with_serial(serial: u32) -> Register {
+    Register::verif_with_serial(serial)
+}
+
+/// `Register::register()`
+pub fn register(r: &Register) -> IngressId {
+    r.register()
+}
+
+/// `Register::update_info()`
+pub fn update_info(
+    r: &Register,
+    id: IngressId,
+    info: IngressInfo,
+) -> Option<IngressInfo> {
+    r.update_info(id, info)
+}
